@@ -880,9 +880,24 @@ def gen_quoting() -> str:
         second = "unquoted = [_remove_quotes(getattr(w, 'value', str(w))) for w in node.words]" in src and "if unquoted != words:" in src and "order.index(unquoted_decision.action) > order.index(cmd_decision.action)" in src
     if not second:
         MISSING.append("_analyze_command second pass")
+    # analyze(): which characters are stripped from the command text before it is parsed
+    strip_chars = None
+    fa = find_func(an, "analyze")
+    if fa is not None:
+        for st in fa.body:
+            if isinstance(st, ast.Assign) and ast.unparse(st.targets[0]) == "command" and isinstance(st.value, ast.Call) and ast.unparse(st.value.func) == "command.strip":
+                if len(st.value.args) == 1 and isinstance(st.value.args[0], ast.Constant) and isinstance(st.value.args[0].value, str):
+                    strip_chars = st.value.args[0].value
+                break
+    if strip_chars is None:
+        MISSING.append("analyze: command.strip(CHARS)")
+        strip_chars = ""
     txt = [
         "-- GENERATED by harness/gen_tables.py from src/dippy/core/analyzer.py. Do not edit.",
         "namespace Dippy.Generated.Quoting",
+        "",
+        "/-- `analyze`: the characters stripped from both ends of the command text (what bash itself skips) -/",
+        "def analyzeStripChars : String := " + lean_str(strip_chars),
         "",
         "/-- `_ANSI_C_ESCAPES`: the one-letter escapes of $'…' -/",
         "def ansiCEscapes : List (Char × Char) := [" + ", ".join("(Char.ofNat %d, Char.ofNat %d)" % p for p in pairs) + "]",
